@@ -183,7 +183,7 @@ class Analyzer:
             base = f.value
             head = self.M.dotted(base)
             is_module = head is not None and (head[0] in ("np", "xp", "numpy", "cp", "signal", "pywt", "nb", "math")
-                                              or head[0] in self.f.mod.imports)
+                                              or head[0] in self.f.mod.imports or head[0] in self.M.xp_names(self.f))
             if not is_module:
                 br = self.roots(base)
                 if f.attr in VIEW_METHODS:
